@@ -154,11 +154,53 @@ def run(F, ck, tier):
                 continue
             seen.add(key)
             ck.ob('R18.3', key, False, '%s uses the proof in %s() %s: a malformed proof reaches this call unvalidated' % (fn.qual, e.q, 'before the shape validator runs' if validated else '(there is no validation at all on this path)'), e.loc())
+    if tier == 'thorough':
+        census(F, ck, C)
     ck.decided += ['validators/decoders contain no input-reachable panic site (asserts, unchecked indexing, unwraps) in their workspace call closure',
                    'every vector/cap/option length of Proof, FriProof, StarkProof is pinned by a guard', 'entry points validate before use', 'no input-sized allocation in proof decoders']
     ck.undecided += ['panic-freedom of the whole verifier after validation (needs length reasoning; see thorough census)', 'that accepted proofs are valid (C02/C03/C05)']
     return ('Decides structural necessary conditions of C18: totality of validators and decoders w.r.t. input-derived operands, exhaustive length pinning of the proof type family, '
             'validate-before-use at each entry point and absence of input-sized allocation. Does not decide panic-freedom of all post-validation code.')
+
+
+def census(F, ck, C):
+    """R18.5 (thorough, informational): panic-capable sites with an input-derived operand in the whole closure of the verification
+    entry points, after validation.  Whether such a site can fire depends on length reasoning this analysis does not do, so the
+    sites are listed as UNREVIEWED in the evidence and never affect the verdict."""
+    out = {}
+    for q, crate, roots in (('plonk::verifier::verify', 'plonky2', {'proof_with_pis'}), ('starky::verifier::verify_stark_proof', 'starky', {'proof_with_pis'})):
+        root = F.one(q, crate=crate)
+        if root is None:
+            continue
+
+        def inl(c, d, ev):
+            t = [f for f in C.targets(c, d) if f.crate in ('plonky2', 'starky', 'plonky2_util')]
+            t = [f for f in t if not any(x in f.file for x in ('hash/poseidon', 'hash/keccak', 'hash/hashing', 'gates/', 'gadgets/', 'hash/arch'))]
+            return t[:4]
+        fl = flow.Flow(F, root, inline=inl, depth=9, track_idx=True)
+        pins = set()
+        for e in fl.events:
+            if e.kind == 'guard':
+                pins |= e.pins
+        sites = {}
+        for e in fl.events:
+            site = None
+            if e.kind == 'assert':
+                site = ('assert', str(e.extra), tainted(e.val, roots))
+            elif e.kind == 'index':
+                bt = e.fn.ty(e.node['e']) or ''
+                if bt.startswith('[') and e.node['i'].get('k') == 'Lit':
+                    continue
+                tb, ti = tainted(e.recv, roots), tainted(e.args[0], roots)
+                if tb and not ti and all(a in pins for a in tb if not any(b != a and (a.startswith(b + '.') or a.startswith(b + '[')) for b in tb)):
+                    continue
+                site = ('index', base_name(e.node), tb + ti)
+            elif e.kind == 'call' and e.name in PANIC_CALLS:
+                site = ('call', e.name, tainted(e.deps(), roots))
+            if site and site[2]:
+                sites.setdefault('%s:%s:%s' % (e.fn.qual, site[0], site[1]), e.loc())
+        out[root.qual] = {'events': len(fl.events), 'unreviewed_sites': len(sites), 'sites': sorted(sites)[:80]}
+    ck.notes['R18.5 census (informational, UNREVIEWED sites: value-tainted panic-capable sites after validation)'] = out
 
 
 def panic_sites(ck, rule, fl, root_fn, taint, kind):
